@@ -324,6 +324,7 @@ def run(P, R, tier):
     V, softfns = c01.fmt_rules(P, Remap(R, {}))
     c01.verdict_discipline(P, Remap(R, {'C01.MPT.1': 'C07.MPT.3'}, keys=('removes-own',)), V)
     c04.lookup_discipline(P, Remap(R, {'C04.WMC.1': 'C07.GRD.2'}))
+    c04.tag_capacity(P, R, 'C07.TAB.3')
     # whether a client is held depends on its own awaiting mask, not on what other clients wait for
     holds.soft_hold_typestate(P, R, 'C07.GRD.3')
     # one client's line is handled whatever line of another client precedes it in the same read
